@@ -317,3 +317,28 @@ def shrink_program(code, still_fails, budget=60):
                 break
             n = min(n * 2, len(parts))
     return best
+
+
+def reserved_header_cases(opts=None):
+    """A user identifier with the reserved prefix bound OUTSIDE the block that needs temporaries: every kind of binding position
+    in a function / arrow / method / catch header or at top level (deterministic; prefix "t")."""
+    import vlib
+    headers = ["function f(%s) { OP }", "function f({ %s }) { OP }", "function f({ %s = 1 }) { OP }", "function f({ k: %s }) { OP }", "function f({ k: { %s } }) { OP }",
+               "function f([ %s ]) { OP }", "function f([, [ %s ]]) { OP }", "function f(...%s) { OP }", "function f({ ...%s }) { OP }", "function f(p = %s) { OP }",
+               "const f = (%s) => { OP };", "const f = ({ %s }) => { OP };", "const f = ({ %s = 1 }) => { OP };", "const f = async ([, %s]) => { OP };", "const f = %s => { OP };",
+               "try { q(); } catch (%s) { OP }", "try { q(); } catch ({ %s }) { OP }", "try { q(); } catch ([ %s ]) { OP }",
+               "class K { m(%s) { OP } }", "class K { m({ %s }) { OP } }", "class K { set v({ %s }) { OP } }", "class K { constructor({ %s }) { OP } }", "class K { static m({ %s = 2 }) { OP } }",
+               "const o2 = { m({ %s }) { OP }, set w([ %s ]) { OP } };",
+               "for (const { %s } of arr) { OP }", "for (let [ %s ] = arr; ; ) { OP break; }", "for (const %s in o) { OP }",
+               "var { %s } = o; function f() { OP }", "let [ %s ] = arr; function f() { OP }", "import { x as %s } from 'm'; function f() { OP }", "import %s from 'm'; function f() { OP }",
+               "function %s() { OP }", "class %s { m() { OP } }", "const f = function %s() { OP };", "export function g({ %s }) { OP }"]
+    ops = ["y = a + q();", "y = q() + q(a);", "y = `${a}${q()}`;", "y = a.concat(q());", "w += q();"]
+    out = []
+    k = 0
+    for hi, h in enumerate(headers):
+        for ni in (0, 1):
+            name = "__datadog_t_%d" % ni
+            code = h.replace("%s", name).replace("OP", ops[(hi + ni) % len(ops)])
+            k += 1
+            out.append({"id": "rsvhdr-%d-%d" % (hi, ni), "config": vlib.default_config(localVarPrefix="t"), "calls": [{"code": code, "file": "hdr.js"}], "opts": dict(opts or {})})
+    return out
